@@ -77,6 +77,8 @@ type sess struct {
 	steps    []Step
 	unstable bool // a quiescence wait timed out: the run says nothing
 	dispID   string // goroutine id of this queue's dispatcher
+	onStep   func(Step)
+	onIntent func(Stim)
 	stopped  bool
 }
 
@@ -220,6 +222,12 @@ func (s *sess) uuidOf(i int) (uuid.UUID, bool) {
 }
 
 func (s *sess) do(st Stim) Obs {
+	if s.onIntent != nil {
+		if st.Op == "enq" {
+			st.B = len(s.items)
+		}
+		s.onIntent(st)
+	}
 	res := 0
 	note := ""
 	switch st.Op {
@@ -315,6 +323,9 @@ func (s *sess) do(st Stim) Obs {
 	o.Res = res
 	o.Note = note
 	s.steps = append(s.steps, Step{st, o})
+	if s.onStep != nil {
+		s.onStep(Step{st, o})
+	}
 	return o
 }
 
